@@ -1,6 +1,7 @@
 package main
 
 import (
+	"crypto/tls"
 	"encoding/json"
 	"fmt"
 	"net"
@@ -373,7 +374,65 @@ func c17retry(c *Ctx, kind string) {
 	c.Outcome(kind + ": failed Run, then ready, connected, served")
 }
 
+// c17tlsConfig: Run with a TLS configuration (with / without a certificate source). Whatever Run decides, Ready
+// and Run must agree: if Run returns an error Ready is not true afterwards; while Ready is true (Stop not
+// called) Run is still running and a TCP connection attempt succeeds.
+func c17tlsConfig(c *Ctx, name string, cfg *tls.Config) {
+	c.Count("cases", 1)
+	rep := map[string]string{"addr": "127.0.0.1:PORT", "kind": "tls-config:" + name}
+	srv, err := gldap.NewServer(gldap.WithLogger(quietLogger))
+	if err != nil {
+		panic(err)
+	}
+	mux, _ := gldap.NewMux()
+	_ = srv.Router(mux)
+	addr := fmt.Sprintf("127.0.0.1:%d", freePort())
+	runErr := make(chan error, 1)
+	go func() { runErr <- srv.Run(addr, gldap.WithTLSConfig(cfg)) }()
+	var rerr error
+	returned := false
+	for i := 0; i < 40000 && !srv.Ready() && !returned; i++ {
+		select {
+		case rerr = <-runErr:
+			returned = true
+		default:
+			time.Sleep(50 * time.Microsecond)
+		}
+	}
+	if !returned {
+		select {
+		case rerr = <-runErr:
+			returned = true
+		case <-time.After(300 * time.Millisecond):
+		}
+	}
+	c.Count("steps", 1)
+	switch {
+	case returned && srv.Ready():
+		c.Outcome("tls-config " + name + ": Run returned, Ready true")
+		c.Report("Ready reports true although Run has returned without Stop being called (tls configuration "+name+")", fmt.Sprintf("Run returned %v", rerr), rep)
+	case returned:
+		c.Outcome("tls-config " + name + ": Run returned an error, Ready false")
+	default:
+		conn, derr := net.DialTimeout("tcp", addr, 5*time.Second)
+		if derr != nil {
+			c.Outcome("tls-config " + name + ": ready, connect fails")
+			c.Report("Ready reports true but a connection attempt fails (tls configuration "+name+")", derr.Error(), rep)
+		} else {
+			conn.Close()
+			c.Outcome("tls-config " + name + ": ready, listening")
+		}
+	}
+	stopBounded(srv)
+}
+
 func c17run(c *Ctx) {
+	if c.Mine() {
+		c17tlsConfig(c, "without any certificate source", &tls.Config{})
+	}
+	if c.Mine() {
+		c17tlsConfig(c, "only MinVersion set", &tls.Config{MinVersion: tls.VersionTLS12})
+	}
 	type a struct{ tmpl, kind string }
 	var cases []a
 	for _, t := range []string{":PORT", "127.0.0.1:PORT", "localhost:PORT", "0.0.0.0:PORT"} {
